@@ -338,8 +338,14 @@ def r3_r4(p, rep):
     rep.rule("C15.R3", "the user function is embedded as a constant, never called while adapting", "T-EFF (flow of the `op` parameter)", floor=15)
     rep.rule("C15.R4", "sibling adapters agree", "T-SIB", floor=30)
     for fw, f in adapters(p):
-        f = common.inlined_view(p, f, "einx._src.frontend.impl", keep_loops=True)  # `op = _op_to_constant(op)` read in place
         prm = f.params[0]
+        # `op = _op_to_constant(op)`: when the first rebinding goes through a helper of the package, read the helper in place
+        rb0 = [n for n in walk_no_nested(f.node) if isinstance(n, ast.Assign) and any(isinstance(t, ast.Name) and t.id == prm for t in n.targets)]
+        if rb0:
+            first0 = min(rb0, key=lambda n: n.lineno)
+            r0 = resolve_callee(p, first0.value, f.module) if isinstance(first0.value, ast.Call) else None
+            if r0 and r0[0] == "func" and r0[1].module.name.startswith("einx._src.frontend.impl") and not r0[1].qualname.endswith("signature.python::constant"):
+                f = common.inlined_view(p, f, "einx._src.frontend.impl", keep_loops=True)
         site = f.loc
         # uses of the parameter before it is rebound
         rebinding = [n for n in walk_no_nested(f.node) if isinstance(n, ast.Assign) and any(isinstance(t, ast.Name) and t.id == prm for t in n.targets)]
